@@ -162,8 +162,8 @@ def r14_2(ctx):
             continue
         if [p["n"] for p in rv["place"]["p"] if isinstance(p, dict) and "n" in p][-2:] != ["config", "timeout"]:
             continue
-        if not r.dominates(cs[0], sb):
-            continue
+        if not r.dominates(cs[0], sb) or rd[0] not in r.reachable(sb):
+            continue        # (a later re-inspection of the limit, after the read, is not the arming site)
         found = True
         reach = reach_consistent(r, ve["Some"], {place_key(rv["place"]): "Some"}, removed_edges=[])
         # remove the limit_time block: read must become unreachable from the Some edge
@@ -583,14 +583,16 @@ def r14_7(ctx):
               "test cases run unbounded and are reported as passed" % (partial or chain))
 
 
-def r14_8(ctx):
+def r14_8(ctx, accept_terminate=False):
     """a timed-out execution is aborted: on the way to every ExitStatus::Timeout result the child process is killed
     (limit_time only stops *waiting*; without a kill the command keeps running after scrut reported the timeout and even
     after scrut exited - its EXIT trap then re-creates the already removed state directory)"""
     prog = ctx.prog
     r = prog.impl_fn("SubprocessRunner", "Runner", "run")
     def _kills(body):
-        return [bb for bb, t in body.calls() if mname(t) in ("Popen::kill", "Popen::terminate")]
+        # SIGKILL only for the time bound: SIGTERM (Popen::terminate) can be trapped or ignored by the test's shell expression, and the
+        # unbounded wait() that follows then lasts until the command has run to completion (C18 only needs the process gone before clean-up)
+        return [bb for bb, t in body.calls() if mname(t) in (("Popen::kill", "Popen::terminate") if accept_terminate else ("Popen::kill",))]
 
     kills = _kills(r)
     # a crate-local helper counts as a kill when every path through it passes Popen::kill (wrapper summary, depth 1)
@@ -610,7 +612,7 @@ def r14_8(ctx):
         dom = [kb for kb in kills if r.dominates(kb, bb)]
         ctx.check(bool(dom), "timeout-kills-child#%d" % k, stmt_loc(r, bb, si),
                   "the child process is killed before the execution is reported as timed out",
-                  "ExitStatus::Timeout is returned without killing the child process: the command keeps running after the timeout was reported (and after scrut "
+                  "ExitStatus::Timeout is returned without killing (SIGKILL) the child process: the command keeps running after the timeout was reported (and after scrut "
                   "exited); a `sleep 3; touch marker` with `timeout: 1s` still creates the marker, and bash's EXIT trap re-creates the removed state directory")
 
 
